@@ -110,6 +110,10 @@ def gen_graph(rng):
     outs = {s: [] for s in stocks}
     for s in stocks:
         want_in, want_out = rng.range(0, 3), rng.range(0, 3)
+        if rng.chance(1, 8):          # wave 2: beyond the kernel-checked skeleton table (n <= 3)
+            want_in = rng.range(4, 7)
+        if rng.chance(1, 8):
+            want_out = rng.range(4, 7)
         while len(ins[s]) < want_in:
             i = len(elems)
             elems.append(("flow", rng.chance(1, 2), gen_ex(rng, refs + later, consts, 2)))
@@ -664,18 +668,32 @@ def probe_skeletons():
     """StockExpressions + parseExpression on placeholder stocks with 0..3 inflows x 0..3 outflows.
     Returns [(nin, nout, words)] with element 0 the stock, 1..nin the inflows, then the outflows; the
     initial value is the literal 7.5."""
+    return probe_skeleton_shapes([(ni, no) for ni in range(4) for no in range(4)])
+
+
+def probe_skeleton_shapes(shapes):
     from BPTK_Py.sdcompiler.plugins import StockExpressions
     from BPTK_Py.sdcompiler.generator.py.py import parseExpression
     out = []
-    for ni in range(4):
-        for no in range(4):
-            ent = {"name": "e0", "inflow": [nm(1 + i) for i in range(ni)], "outflow": [nm(1 + ni + i) for i in range(no)],
-                   "equation_parsed": [7.5]}
-            IR = {"models": {"": {"name": "", "entities": {"stock": [ent], "flow": []}}}}
-            IR = StockExpressions(IR)
-            text = parseExpression(IR["models"][""]["entities"]["stock"][0]["equation_parsed"])
-            out.append((ni, no, str(text), pyfrag.lex(str(text))))
+    for ni, no in shapes:
+        ent = {"name": "e0", "inflow": [nm(1 + i) for i in range(ni)], "outflow": [nm(1 + ni + i) for i in range(no)],
+               "equation_parsed": [7.5]}
+        IR = {"models": {"": {"name": "", "entities": {"stock": [ent], "flow": []}}}}
+        IR = StockExpressions(IR)
+        text = parseExpression(IR["models"][""]["entities"]["stock"][0]["equation_parsed"])
+        out.append((ni, no, str(text), pyfrag.lex(str(text))))
     return out
+
+
+# wave 2: shapes beyond the kernel-checked 0..3 x 0..3 table; token equality with the intended text is decided by the
+# Lean driver (`skeletonTextOK`), parse + denotation for ANY n is `skeletonTextOK_sound` / `stock_text_denotes`
+LARGE_SHAPES_QUICK = [(4, 0), (0, 4), (4, 4), (5, 2), (2, 5), (6, 6), (9, 1), (1, 9), (10, 11), (12, 12), (25, 0), (0, 25), (17, 23)]
+
+
+def large_shapes(quick):
+    if quick:
+        return LARGE_SHAPES_QUICK
+    return sorted(set(LARGE_SHAPES_QUICK) | {(a, b) for a in range(11) for b in range(11) if a > 3 or b > 3} | {(40, 40), (101, 3)})
 
 
 PROBE_ELEMS = [("stock", ("L", 0.0), [1], []), ("flow", True, ("L", 1.0))]
@@ -832,6 +850,12 @@ def _run2(chk, scratch, bp):
         req.append(chk_line(c.elems, ev["texts"]))
         meta.append(("chk", ci))
     chk.cov["input_distribution"] = dist
+    # wave 2: stock skeletons with more than 3 inflows/outflows, decided by the driver's skeletonTextOK
+    big = probe_skeleton_shapes(large_shapes(chk.quick))
+    for bi, (ni, no, _text, words) in enumerate(big):
+        req.append(f"skel|{ni}|{no}|" + " ".join(words))
+        meta.append(("skel", bi))
+    chk.cov["large_skeleton_shapes_checked_by_driver"] = [f"{a}/{b}" for a, b, _, _ in big]
     model = drive("C04", req)
     chk.cov["traces_validated_against_impl"] = len(cases)
     ngrid_bad = sum(1 for ev in results if not ev["grid_ok"])
@@ -839,9 +863,15 @@ def _run2(chk, scratch, bp):
     chk.cov["run_scenarios_rows_beyond_stop_reported_under_C05"] = sum(ev.get("xm_bptk_extra", 0) + ev.get("dsl_bptk_extra", 0) for ev in results)
     n_tol = 0
     for (kind, ci), reply in zip(meta, model):
-        c, ev = cases[ci], results[ci]
         if corr_fail is not None:
             break
+        if kind == "skel":
+            if reply != "ok":
+                ni, no, text, _ = big[ci]
+                corr_fail = ("skeleton-large", f"StockExpressions text for {ni} inflows / {no} outflows is not the intended skeleton "
+                             f"(Bptk.C04.skeletonTextOK answers {reply!r}): {text[:300]}", {"nin": ni, "nout": no, "text": text, "reply": reply})
+            continue
+        c, ev = cases[ci], results[ci]
         if kind == "chk":
             if reply != "ok":
                 idx = int(reply.split()[1]) if reply.startswith("diff") else -1
